@@ -32,7 +32,7 @@ int g_errno0;
 	X(IMP(n <= 0xffffffffu && m <= 0xffffffffu, g_nalloc == 1)) \
 	X(IMP(n > 0xffffffffu && m > 0xffffffffu, g_nalloc == 0 && RET == 0)) \
 	X(n == g_n && m == g_m) \
-	CANARY(X, !(g_n == 3 && g_m == 5 && !g_alloc_fails))
+	CANARY(X, !(g_n == 0 && g_m == 5 && !g_alloc_fails))
 
 void util_at_exit(int status) { __CPROVER_assert(0, "reallocarray never exits"); }
 
